@@ -530,6 +530,8 @@ class FnExec:
                     self.assumptions.add("A-INHERIT: a method inherited from a base class modifies only fields the base class declares")
         res = fresh(cs.ret, "ret") if cs.ret is not None else Val(NONE, z3.BoolVal(True))
         post.env["result"] = res
+        for nm_, t_ in getattr(cs, "exports", {}).items():       # exported callee locals: some value exists for which the clauses hold (the callee's own exit state is the witness)
+            post.env[nm_] = fresh(t_, nm_ + "_exported"); pc.extend(wf(post.env[nm_])); st.env[f"{nm_}_of_{qual.split('.')[-1]}"] = post.env[nm_]
         for v in [post.env.get("self"), res]:
             if isinstance(v, Val): pc.extend(wf(v))
         # exceptional exits
